@@ -68,6 +68,15 @@ def _kwargs(sup):
     return kw
 
 
+def _band_views(c, ctx):
+    """The derived views of the bands: complements with exchanged ends, and aliases."""
+    fci, pci = np.asarray(c.fnr_ci, dtype=float), np.asarray(c.fpr_ci, dtype=float)
+    require(np.array_equal(np.asarray(c.tpr_ci), 1.0 - fci[..., ::-1]) and np.array_equal(np.asarray(c.tnr_ci), 1.0 - pci[..., ::-1])
+            and np.array_equal(np.asarray(c.frr_ci), fci) and np.array_equal(np.asarray(c.far_ci), pci)
+            and np.array_equal(np.asarray(c.tar_ci), np.asarray(c.tpr_ci))
+            and np.array_equal(np.asarray(c.trr_ci), np.asarray(c.tnr_ci)), "band:views", ctx)
+
+
 def wellformed(c, s, ctx, unit_interval):
     t = np.asarray(c.thresholds, dtype=float)
     n = len(t)
@@ -86,6 +95,7 @@ def wellformed(c, s, ctx, unit_interval):
         if unit_interval:
             require(bool(np.all(b >= 0) and np.all(b <= 1)), "band:outside-unit-interval",
                     lambda: f"{ctx}: {name} leaves [0,1]: min {b.min()!r} max {b.max()!r}")
+    _band_views(c, ctx)
 
 
 # -------------------------------------------------------------- clause: roc_with_ci, built-in
